@@ -71,3 +71,13 @@ claim("C07",
       "exhaustive enumeration of single writes with a full 64 KiB before/after diff on the real Mapper against documented effect sets",
       "For every address in FE00-FFFF, every 0x100-aligned address +-1 and every region boundary +-1 (thorough: all 65,536 addresses) x 8 values x 7 machine states, the whole 64 KiB space is read before and after one Mapper.Write; every changed location must belong to the documented effect set of the written address (own value and mirror, cartridge windows for control writes, LCDC->STAT/LY, DMA->OAM window, NR52->sound registers and wave RAM, envelope/trigger/sweep/DAC->NR52 status, NR30/NR34->wave RAM window).",
       "The new values of documented side effects are judged by the owning properties (C06/C08/C09/C18/C19); C07 only bounds *where* a write may have an effect.")
+
+claim("C13",
+      "exhaustive enumeration of LCD off/on switching points over two frames of the real PPU, every cycle observed, against a reference line/mode monitor",
+      "LY and the STAT mode are read through the Mapper after every machine cycle and checked by a reference monitor (LY 0-153 cyclic, 114 cycles per line, mode 2/3/0 boundaries at 20 and 61, mode 1 on lines 144-153, 17,556 per frame, shorter first line). Besides 4 free-running frames, the LCD is switched off at EVERY cycle position of the first and of the steady second frame (35,112 positions) for 0, 1, 5 and 200 cycles (LY=0 and mode 0 at once and throughout), switched on again (line 0, mode 2 at once) and monitored for 260 further cycles (thorough: more than a frame); each excursion starts from a snapshot of the PPU.",
+      "Which cycle of a line LY changes on is an implementation convention; only the first line after switching on is given a one-cycle tolerance (112 or 113 observed cycles).")
+
+claim("C14",
+      "exhaustive enumeration of STAT sources x LYC values x LCD off/on points on the real PPU with per-cycle IF observation against a reference request predictor",
+      "IF is read and cleared after every machine cycle, so the exact cycle of every request is observed: VBlank exactly when LY becomes 144 and once per frame; with one STAT source enabled, a request exactly at the rising edge of that source (mode-0 entry; LY becomes 144; LY becomes n for n in 0-143; LY becomes LYC for every LYC 0-153 and out of range) over 3 frames; and for LCD off (1 and 300 cycles) / on at every cycle of lines 0, 1, 143, 144, 153 (thorough: every cycle of a frame): nothing requested by switching off, while off, or (VBlank/HBlank sources) by switching on.",
+      "Don't-cares: OAM source at line 144; STAT requests in the cycle the LCD is switched on for the OAM/LYC sources; several sources at once.")
